@@ -116,7 +116,8 @@ def gen_doc(rng, big=False):
         # a channel that shrank since it was last signed: far more stale signature bytes than new ones
         for j in range(rng.choice([50, 200])):
             doc["signatures"]["gone-%d-1.0-0.tar.bz2" % j] = {"ab" * 32: {"signature": "cd" * 64}}
-    return {"kind": "doc", "doc": dict(items), "seed": seed_hex, "pre": pre, "extra": extra,
+    prior = rng.choice([None, None, None, "missing", "empty", "no_packages", "packages_not_object", "not_json", "bad_key", "unserializable_artifact"])
+    return {"kind": "doc", "prior_failure": prior, "doc": dict(items), "seed": seed_hex, "pre": pre, "extra": extra,
             "layout": rng.choice(["compact", "compact", "canonical", "wide", "wide"])}
 
 
@@ -139,6 +140,37 @@ def check_case(case, rec, lib, scratch):
     rec.hist("input_layout", case.get("layout", "compact"))
     fn = os.path.join(scratch, "repodata.json")
     layout = case.get("layout", "compact")
+    prior = case.get("prior_failure")
+    if prior:
+        # history: an earlier attempt on the SAME path, in the same process, failed (file not there yet / still empty / not yet a
+        # repodata document / wrong key); the file is then put right and signed.  The earlier failure must leave nothing behind.
+        try:
+            os.unlink(fn)
+        except OSError:
+            pass
+        pk = key.seed.hex()
+        if prior == "empty":
+            open(fn, "wb").close()
+        elif prior == "no_packages":
+            with open(fn, "w") as f:
+                f.write('{"info": {}}')
+        elif prior == "packages_not_object":
+            with open(fn, "w") as f:
+                f.write('{"packages": [1, 2]}')
+        elif prior == "not_json":
+            with open(fn, "w") as f:
+                f.write("{")
+        elif prior == "bad_key":
+            with open(fn, "w") as f:
+                f.write('{"packages": {}}')
+            pk = "zz" * 32
+        elif prior == "unserializable_artifact":
+            with open(fn, "w") as f:
+                f.write('{"packages": {"a-1-0.tar.bz2": {"n": 1e999}, "b-1-0.tar.bz2": %s}}' % ("[" * 3000 + "]" * 3000))
+        # "missing": no file at all
+        o0 = boundary.call(lib, S.sign_all_in_repodata, fn if prior != "other_spelling" else os.path.join(scratch, ".", "repodata.json"), pk)
+        rec.hist("prior_failure", "%s:%s" % (prior, "return" if o0.accepted else o0.cls))
+        rec.count("histories_with_prior_failed_attempt")
     with open(fn, "wb") as f:
         if layout == "canonical":
             f.write(canonjson.canon(doc))
